@@ -45,13 +45,13 @@ Proof. exact gp_synchronize_waits_all. Qed.
 Print Assumptions C04_gp_synchronize_waits.
 
 (** gpi_no_dispose_inside_old_reader (general_instant): every "dispose p" at position d is preceded by a
-    "retire p" of the same thread at some k < d such that every reader that was inside a section at k (entered
-    before the retirement) has left it before d. *)
+    "retire p" at some k < d (of the same thread, in this flavour) such that every reader that was inside a section
+    at k (entered before the retirement) has left it before d. *)
 Theorem C04_gpi_no_dispose_inside_old_reader :
   forall (fuel : nat) (ths : list (list RcuGp.op)) c,
     Conc.reach (RcuGp.init_cfg 2 fuel ths) c ->
     forall w p d, at_ (Conc.trace c) d w (is_dispose p) ->
-      exists k, k < d /\ at_ (Conc.trace c) k w (is_retire p) /\
+      exists k w', k < d /\ at_ (Conc.trace c) k w' (is_retire p) /\
         forall r s, open_at (Conc.trace c) r s k -> exists b, k < b < d /\ at_ (Conc.trace c) b r is_runlock0.
 Proof. exact gpi_dispose_safe_all. Qed.
 Print Assumptions C04_gpi_no_dispose_inside_old_reader.
